@@ -58,6 +58,10 @@ def dup_documents(tier):
     out.append('{"a\\/b":1,"a/b":2,"c":3,"\\u0063":4}')
     out.append('{"a\\q":1,"b":2,"b":3}'.replace("\\q", "\\u0071"))
     out.append("{" + ",".join('"k%d":%d' % (i, i) for i in range(300)) + ',"k7":-1}')
+    # wide objects (> 16 fields) whose repeated key shares length, first and last byte with other keys
+    out.append("{" + ",".join('"k%d":%d' % (i, i) for i in range(40)) + ',"k10":999}')
+    out.append("{" + ",".join('"k%d":%d' % (i, i) for i in range(40)) + ',"k25":-1,"k31":-2,"k25":-3}')
+    out.append('{"w":' + "{" + ",".join('"a%db":%d' % (i, i) for i in range(30)) + ',"a7b":70,"a17b":170}' + "}")
     return out
 
 
